@@ -40,9 +40,10 @@ def grid(tier, seed):
               ('tpi', 'u32', -4, 'u32', 0), ('tpi', 'u32', -1, 'u32', 0), ('tpi', 'u64', -8, 'u64', -3), ('tpi', 'i32', -4, 'i32', 0), ('tpi', 'i64', -5, 'i64', 0),
               ('ninf', 'i16', -8, 'i8', -1), ('ninf', 'u32', -6, 'u16', 0), ('nrst', 'i8', -7, 'i8', -2), ('nrst', 'i32', -16, 'i16', -2), ('nrst', 'i64', -30, 'i32', 0),
               ('tpi', 'u8', -3, 'u8', 0), ('tpi', 'i16', -8, 'i16', -4), ('nat', 'i16', -8, 'i16', -4), ('nat', 'u32', -8, 'u32', 0),
-              ('nrst', 'i16', -4, 'i32', -8), ('tpi', 'u8', 0, 'u16', -4), ('ninf', 'i32', 2, 'i32', 0)]
+              ('nrst', 'i16', -4, 'i32', -8), ('tpi', 'u8', 0, 'u16', -4), ('ninf', 'i32', 2, 'i32', 0),
+              ('nrst', 'i32', -31, 'i32', 0), ('tpi', 'i8', -31, 'i8', 0), ('ninf', 'i64', -63, 'i64', 0), ('nrst', 'i16', -30, 'i16', 0)]
     k = 4 if tier == 'quick' else 40
-    while len(wfixed) < 21 + k:
+    while len(wfixed) < 25 + k:
         t = rnd.choice(list(TAGS)); s = rnd.choice(reps); d = rnd.choice(reps)
         es = rnd.choice([-28, -20, -16, -12, -8, -4, -2]); ed = es + rnd.choice([1, 2, 3, 5, 8, 12])
         if ed - es >= min(int(s[1:]), 31) - 1:
